@@ -284,6 +284,9 @@ impl TypeEntry {
             },
             // Note that min and max values are handled already by the
             // conversion routines since we have those close at hand.
+            TypeEntryDetails::Integer(itype) if !integer_fits(itype, default) => {
+                Err(Error::invalid_value())
+            }
             TypeEntryDetails::Integer(itype) => match (default.as_u64(), default.as_i64()) {
                 (None, None) => Err(Error::invalid_value()),
                 (Some(0), _) => Ok(DefaultKind::Intrinsic),
@@ -373,6 +376,36 @@ impl TypeEntry {
             (format!("defaults::{}", fn_name), Some(def))
         }
     }
+}
+
+/// Whether `value`, if it is an integer, is one that the Rust integer type
+/// named `itype` can hold. The conversion routines check a default against the
+/// schema it appears in; this covers defaults that reach an integer type
+/// through a reference or as part of a compound value. Type names we do not
+/// recognize are not checked.
+fn integer_fits(itype: &str, value: &serde_json::Value) -> bool {
+    let (name, nonzero) = match itype.strip_prefix(STD_NUM_NONZERO_PREFIX) {
+        Some(rest) => (rest.to_ascii_lowercase(), true),
+        None => (itype.to_string(), false),
+    };
+    let (min, max): (i128, i128) = match name.as_str() {
+        "u8" => (u8::MIN.into(), u8::MAX.into()),
+        "u16" => (u16::MIN.into(), u16::MAX.into()),
+        "u32" => (u32::MIN.into(), u32::MAX.into()),
+        "u64" => (u64::MIN.into(), u64::MAX.into()),
+        "i8" => (i8::MIN.into(), i8::MAX.into()),
+        "i16" => (i16::MIN.into(), i16::MAX.into()),
+        "i32" => (i32::MIN.into(), i32::MAX.into()),
+        "i64" => (i64::MIN.into(), i64::MAX.into()),
+        _ => return true,
+    };
+    let value = match (value.as_u64(), value.as_i64()) {
+        (Some(v), _) => i128::from(v),
+        (None, Some(v)) => i128::from(v),
+        // Not an integer: left to the caller.
+        (None, None) => return true,
+    };
+    !(nonzero && value == 0) && min <= value && value <= max
 }
 
 pub(crate) fn validate_default_for_external_enum(
